@@ -30,6 +30,9 @@ rule("C17.k", "make_slp: every restriction row is repeated for every sample - th
               "column splits of A only; rows are left out at most where a row has no entry on future variables (counted, not summed)", floor=2)
 rule("C17.l", "make_slp: the scenarios are the user's samples, one to one - the number of samples and the list of cost samples that "
               "is appended are the whole list (or its image under create_cost_samples), never a selection (no de-duplication, filter, subset)", floor=1)
+rule("C17.m", "robust target: the scenarios are the samples as given - the list that the scenario constraints are built from is the `samples` "
+              "argument itself (or a plain array / list copy of it); it is not transposed, reshaped or re-ordered on the way (a transpose "
+              "decided from the shape is wrong exactly when the number of samples equals the number of variables)", floor=1)
 rule("C17.f", "robust target: sample constraints, recomputed value and plain objective use the same sign of c", floor=3, props=["C17", "C03"])
 
 # confirmed exception (one line of reason)
@@ -56,7 +59,7 @@ def _fresh_frames(fn):
     return out
 
 
-@analysis("slp", ["C07.e", "C17.b", "C17.c", "C17.d", "C17.f", "C17.h", "C17.j", "C17.k", "C17.l"])
+@analysis("slp", ["C07.e", "C17.b", "C17.c", "C17.d", "C17.f", "C17.h", "C17.j", "C17.k", "C17.l", "C17.m"])
 def run(ctx):
     p = ctx.p
     # ================================================================= C07.e
@@ -403,3 +406,34 @@ def run(ctx):
                    "the scenario set. When that vector is the binding worst case the worst-case value over the *given* scenarios falls below "
                    "that of a single-scenario solution (144.67 vs 8074.28)" % ("the problem's own cost vector self.c" if own else "a vector that is not the loop variable over the samples"),
                    node=x)
+
+
+    # ================================================================= C17.m the samples as given
+    if opt_fn is not None:
+        ffo = ctx.flow(opt_fn)
+        loops_s = [a for a in au.walk_stmts(opt_fn.body) if isinstance(a, ast.For) and isinstance(a.iter, ast.Name)
+                   and any(isinstance(y, ast.BinOp) and isinstance(y.op, ast.MatMult) for b0 in au.walk_stmts(a.body) for y in au.walk_own(b0))]
+        if not loops_s:
+            ctx.ob("C17.m", opt_fn, "loop over the samples", None, "no loop that builds one constraint per sample found")
+        SHAPERS = ("transpose", "reshape", "swapaxes", "moveaxis", "sort", "unique", "flip", "roll", "ravel", "flatten")
+        for lp in loops_s:
+            bad = unknown = None
+            for d in ffo.defs(lp.iter.id, lp):
+                if d.kind == "param":
+                    continue
+                v = d.value
+                if d.kind != "assign" or v is None:
+                    unknown = d
+                    continue
+                shaped = [x for x in au.walk_local(v) if (isinstance(x, ast.Attribute) and x.attr == "T") or
+                          (isinstance(x, ast.Call) and au.method_name(x) in SHAPERS) or isinstance(x, ast.Subscript)]
+                if shaped:
+                    bad = (d, shaped[0])
+                elif not (isinstance(v, ast.Call) and au.method_name(v) in ("asarray", "array", "list", "tuple", "copy", "deepcopy")):
+                    unknown = d
+            ctx.ob("C17.m", opt_fn, "samples in `%s`" % au.short(lp, 40).split(":")[0], False if bad else (None if unknown else True),
+                   ("the scenarios the constraints are built from are %s (%s), not the samples as given: a list of cost vectors is an array of shape "
+                    "(samples, variables) - a transpose decided from the shape turns the *variables* into scenarios whenever there are as many "
+                    "samples as variables (6 scenarios, 6 variables: the 'robust' solution has a worst case of -1086 where a single-scenario "
+                    "solution reaches -783)" % (au.short(bad[1], 40), p.where(bad[0].node))) if bad else
+                   "the loop variable over the samples is re-defined in a way this rule does not interpret", node=lp)
